@@ -25,10 +25,22 @@ package mask
 //@   loop 2 invariant 0 <= prevFinish && prevFinish <= len(value) && rangeindex#2 < len(m.Groups) && 0 <= rangeindex && rangeindex < len(indexes)
 //@   loop 2 invariant len(index) == 2 * (uf_nsub(m.Re_) + 1)
 //@   loop 2 invariant forall k :: 0 <= k && k <= uf_nsub(m.Re_) ==> (index[2*k] == -1 && index[2*k+1] == -1) || (0 <= index[2*k] && index[2*k] <= index[2*k+1] && index[2*k+1] <= len(value))
+//@   loop 2 invariant forall j :: 0 <= j && j <= rangeindex#2 ==> index[2*m.Groups[j]] < 0 || index[2*m.Groups[j]+1] < 0 || index[2*m.Groups[j]+1] <= prevFinish
+//@   loop 1 iter-ensures forall j :: 0 <= j && j < len(m.Groups) ==> index[2*m.Groups[j]] < 0 || index[2*m.Groups[j]+1] < 0 || index[2*m.Groups[j]+1] <= prevFinish
 //@   callee maskSection(dst, src, b, e)
 //@     requires src == value && 0 <= b && b <= e && e <= len(src)
+//@     requires e == index[2*grp+1] && (b == index[2*grp] || (b == prevFinish0 && index[2*grp] < prevFinish0))
 //@     pure
 //@     ensures isnil(result) || fresh(result) || sameblock(result, dst)
+//@   ghost prevFinish0 int = 0
+//@   setat "buf = append(buf, value[prevFinish:curStart]...)" prevFinish0 := prevFinish
+
+// (C17 "hides every matched secret": within one match every selected group that took
+// part in it is masked through to its end - after group j is handled the written prefix
+// reaches at least its end - and, when the groups of the match are done, that holds for
+// ALL of them: leaving the group loop early would leave a later group in clear text.
+// Each masked section ends at its group's end and starts at the group's start, or at
+// the end of what is written already when the group starts inside that.)
 
 // maskSection: one asterisk per rune up to max_count, the replace word, or nothing.
 // In mask mode the number of asterisks is exactly min(runes of the section,
